@@ -28,11 +28,9 @@ CLAIMED = {
    technique='Lean 4 theorem by mutual structural induction over a block grammar + exhaustive table diff + differential correspondence',
    design='§7 C17'),
  'C04': dict(
-   text='Theorems statements_partition_tokens / statements_partition_text (all token streams / all texts): the flat statements that both split() and parse() start from partition the input in order, '
-        'nothing lost or duplicated, only a whitespace-typed tail dropped, no statement empty (composes C01 losslessness with the splitter invariant). Sampled by the oracle on the real code: '
-        'split() == stripped str() of parse() statements, non-empty pieces, increasing positions with whitespace gaps, re-split of every piece.',
-   note='Trusted: Lean kernel; splitter/lexer models tied by S-SPLIT, S-CSL, S-LEX. Re-split clause: known finding KF-C04-1 (context-sensitive lexing), classified by the lex_stable predicate. Not yet theorems: strip() non-emptiness, re-split on lex-stable pieces, grouping text preservation (C02).',
-   technique='Lean 4 theorem (state invariant of the splitter fold composed with lexer losslessness) + differential correspondence + oracle',
+   text='Theorems (all texts): statements_partition_text — the flat statements that both split() and parse() start from partition the input in order, nothing lost or duplicated, only a whitespace-typed tail dropped; pieces_nonempty — every piece split() returns is non-empty after strip() (every non-whitespace-typed token starts with a non-space character: first-character analysis of the regenerated rule table); lexer+splitter never fail. Oracle on the real code: split() == stripped str() of parse() statements, increasing positions with whitespace gaps, re-split of every piece; splitter state machine tied by S-CSL (exhaustive table), S-SPLIT (random + bounded-exhaustive over reduced alphabets).',
+   note='Re-split clause: known finding KF-C04-1 (context-sensitive lexing), classified by the lex_stable predicate; not a theorem on lex-stable pieces yet.',
+   technique='Lean 4 theorems (splitter fold invariant composed with lexer losslessness; first-character analysis) + exhaustive/bounded-exhaustive correspondence + oracle',
    design='§7 C04'),
  'C15': dict(
    text='Theorems recursion_error_never_escapes / other_errors_unchanged over the try-scope extracted from FilterStack.run (every stage inside the try), entry-point shape facts, and '
@@ -76,18 +74,14 @@ CLAIMED = {
    technique='Lean 4 theorems over the grouping and accessor models + oracle over real object graphs + differential correspondence',
    design='§7 C03'),
  'C09': dict(
-   text='Theorems matching_loop_is_stack_matcher / group_matching_is_recursive_matcher: the real loop of _group_matching (snapshot iteration, tidx = idx - offset, group_tokens slicing, recursion into groups of other classes) '
-        'computes exactly the textbook frame-stack matcher, for every class/pattern/token list, balanced or not, and never raises (only recursion depth can fail); created groups have >= 2 children, start with their opener and end with their closer; '
-        'leaves kept; no group empty after all passes. M_OPEN/M_CLOSE regenerated from the source. Oracle: spans of the six classes vs an independent stack matcher on biased unbalanced inputs; S-TREE.',
-   note='End-to-end clause (later passes keep these groups, only trailing comments appended) is oracle + S-TREE, not a theorem.',
-   technique='Lean 4 refinement proof (loop invariant relating index arithmetic to a frame stack) + independent reference matcher as oracle + differential correspondence',
+   text='Theorems: the real loop of _group_matching computes exactly the textbook frame-stack matcher for every class/pattern/token list (balanced or not) and never raises; created groups start with their opener and end with their closer; all 19 later passes neither create nor dissolve a group of the six classes nor change its leaves (only align_comments may append following siblings); no group empty. M_OPEN/M_CLOSE and pass order regenerated from the source. Oracle: spans vs an independent stack matcher on biased unbalanced inputs; S-TREE.',
+   note='That align_comments appends exactly whitespace + one Comment group is oracle-checked.',
+   technique='Lean 4 refinement proof (loop invariant relating index arithmetic to a frame stack) + rewrite-step invariant over the later passes + independent reference matcher as oracle',
    design='§7 C09'),
  'C07': dict(
-   text='Theorems: validate_total (for every option dictionary over None/bool/int/str/float incl. inf,nan/list, validate_options returns or raises SQLParseError, never anything else) over the option table regenerated from formatter.py '
-        '(decide obligation: every int stanza catches ValueError, TypeError, OverflowError); validate_before_format; accessor totality facts (get_cases total, name accessors total on parse trees, exact raise conditions of get_parameters/get_window/Comparison.left). '
-        'Oracle: option pool x probe/random texts; parse/split/format with random valid option sets on junk and grammar inputs; every accessor on every node.',
-   note='Partial: absence of IndexError/... inside grouping passes and statement filters is explored (the models reproduce the exceptions the real filters raise on odd trees), not proved. Three genuine defects repaired (618d66d, 80aaf5c, 0de99dc).',
-   technique='Lean 4 theorem over an interpreter of the regenerated option table + accessor totality theorems + exploration of exceptions on the real code',
+   text='Theorems: lexSplit_total/split_total (lexer+splitter never fail), grouping_total (the 25 passes return or fail with RecursionError only — every index in range), validate_total over the regenerated option table, validate_before_format, accessor totality facts, format_error_kinds (RecursionError/StopIteration never leave format). Oracle: option pool x texts; parse/split/format with random valid option sets on junk, deep nesting and grammar inputs; every accessor on every node.',
+   note='Partial: absence of IndexError/… inside the statement filters is explored (two known findings KF-C07-1/2 come from there). Three genuine defects repaired (618d66d, 80aaf5c, 0de99dc).',
+   technique='Lean 4 theorems (index-range invariants per pass, interpreter of the regenerated option table, accessor totality) + exploration of exceptions on the real code',
    design='§7 C07'),
  'C11': dict(
    text='Oracle-centred: each grammar script is re-spelled (every inter-token whitespace run and every inner whitespace of multi-word keywords replaced, keywords re-cased) and statement count, get_type and tree shape compared; '
@@ -102,10 +96,9 @@ CLAIMED = {
    technique='Lean 4 theorems over the accessor model + oracle with planted references + differential correspondence',
    design='§7 C12'),
  'C13': dict(
-   text='Theorems (universal in the child list): get_identifiers_spec, get_cases_spec/total, get_parameters/Comparison error characterisations; decide obligations that Where.M_OPEN/M_CLOSE regenerated from the source are the lists the property names. '
-        'Oracle: queries built from known parts (WHERE x every closer x nesting, lists, calls, CASE, comparisons, typed literals) checked against the written parts.',
-   note='Partial: that earlier passes deliver the assumed children (where_extent etc.) is sampled. One genuine defect repaired (fix: 8630182); two known findings (KF-C13-1, KF-C13-2).',
-   technique='Lean 4 theorems over the accessor model + decide over regenerated class tables + oracle with constructed queries',
+   text='Theorems: where_extent (first WHERE heads a group up to the first later closing keyword of the regenerated Where.M_CLOSE, else to the last groupable child; every iteration likewise; none left ungrouped), get_identifiers_spec, get_cases_spec/total, get_parameters/Comparison error characterisations; decide obligations that Where.M_OPEN/M_CLOSE are the lists the property names. Oracle: queries built from known parts (WHERE x every closer x several WHEREs per level x nesting, lists, calls, CASE, comparisons, typed literals).',
+   note='Partial: that lists/calls/CASE/comparisons are grouped as the accessor theorems assume is sampled. One defect repaired (8630182); known findings KF-C13-1, KF-C13-2.',
+   technique='Lean 4 theorems over the grouping and accessor models + decide over regenerated class tables + oracle with constructed queries',
    design='§7 C13'),
  'C18': dict(
    text='Theorems: get_type on any tree with a leading DML/DDL keyword (after whitespace/comments) is its normalised spelling whatever follows; UNKNOWN for empty statements; CTE walk fuel irrelevance; kwNorm collapses case and inner whitespace. '
@@ -114,29 +107,24 @@ CLAIMED = {
    technique='Lean 4 theorems over the accessor model + oracle + differential correspondence',
    design='§7 C18'),
  'C06': dict(
-   text='Theorems over the filter model: strip_whitespace and use_space_around_operators leave the sequence of non-whitespace leaves (type and value) unchanged on every tree; serializer only strips line ends; the full format model never leaks RecursionError/StopIteration and validates first. '
-        'ReindentFilter/AlignedIndentFilter are modelled literally and tied by S-FMT/S-TREES (0 mismatches on ~75k cases each) but their preservation is not proved: for them and for the lexical bridge the oracle decides '
-        '(significant-token sequence incl. comments and statement count of format(script, **layout options) vs the script).',
-   note='Partial: reindent/aligned clauses and the re-lexing bridge are exploration + correspondence, not theorems.',
-   technique='Lean 4 theorems (bottom-up invariant over tree filters) for two of the four layout filters + differential correspondence of the full format pipeline + oracle',
+   text='Theorems over the filter model: ALL FOUR layout filters — strip_whitespace, use_space_around_operators, reindent (every sub-option set) and reindent_aligned — leave the sequence of non-whitespace leaves (type and value) unchanged on every tree on which they do not raise; a filter plan made of layout filters hands the serializer a tree with the significant leaves of the grouped tree; the serializer only strips line ends; format never leaks RecursionError/StopIteration and validates first. The filters are modelled literally (offset arithmetic, cross-statement state) and tied by S-FMT/S-TREES (0 mismatches on ~75k cases each). The lexical bridge (the serialized text re-lexes to the same tokens, same statement count) is decided by the oracle.',
+   note='Partial: lexical bridge is exploration + correspondence.',
+   technique='Lean 4 theorems (bottom-up invariant over tree filters, one lemma per _process_* method) + differential correspondence of the full format pipeline + oracle',
    design='§7 C06'),
  'C08': dict(
-   text='Theorems: keyword_case / identifier_case / truncate_strings are maps that change exactly their target tokens (others identical, in order), idempotent given idempotent case conversion; strip_comments keeps every non-comment non-whitespace leaf in order on trees whose Comment groups are pure. '
-        'Oracle: each filter alone and with layout options on grammar scripts with comments in every gap, token-by-token comparison after re-lexing, and the filter applied to its own output; S-FMT.',
-   note='Partial: no-fusing and end-to-end idempotence are oracle-checked. Four known findings KF-C08-1..4.',
+   text='Theorems: keyword_case / identifier_case / truncate_strings are maps that change exactly their target tokens, idempotent given idempotent case conversion; strip_comments keeps every non-comment non-whitespace leaf in order, and afterwards only hints remain (under the exact condition characterised by noNhPairs). Oracle: each filter alone and with layout options on grammar scripts with comments (adjacent comments, hints) in every gap, token-by-token comparison after re-lexing, filter applied to its own output; S-FMT.',
+   note='Partial: no-fusing and end-to-end idempotence are oracle-checked. Six known findings KF-C08-1..6.',
    technique='Lean 4 theorems over the token-filter and strip-comments models + oracle by re-lexing + differential correspondence',
    design='§7 C08'),
  'C10': dict(
-   text='Theorem: no output line ends in a blank (serializer, every text). The other normal-form and fixed-point clauses are checked by the oracle on the real code (strip_whitespace shape, blanks around every operator, clause keywords at line start, fixed points), filters tied by S-FMT.',
-   note='Mostly exploration: one clause is a theorem. Four known findings KF-C10-1..4 (newline after operator, inner whitespace of multi-word keywords, whitespace run before comma, quote inside a comment).',
-   technique='oracle on the real code + differential correspondence; Lean theorem for the trailing-blank clause only',
+   text='Theorems (tree level): strip_whitespace normal form (every list a fixed point of the default pass; no whitespace after ( / before ) in a parenthesis), use_space_around_operators normal form (whitespace sibling on both sides of every operator) and fixed point (after repair f036566), no output line ends in a blank. Oracle on the real code: the text-level normal forms incl. reindent (clause keywords at line start) and both fixed points; S-FMT.',
+   note='Partial: reindent clause and text-level reading are oracle-checked. One defect repaired (f036566); known findings KF-C10-2..4.',
+   technique='Lean 4 theorems over the filter models + oracle on the real code + differential correspondence',
    design='§7 C10'),
  'C14': dict(
-   text='Theorems (all subject strings, positions, left contexts, bodies): block comments and hints, line comments (-- and # ) and hints, single-quoted strings with doubled quotes, double-quoted and backtick/acute names, dollar-quoted bodies with tags '
-        'are each exactly one token of their type at the opener — tied to the regenerated rule table by definitional equations (a changed regex breaks them) and decide obligations that no earlier rule can start there. '
-        'Keyword clause: exhaustive enumeration of every dictionary word x 4 casings x 7 delimited contexts on the real lexer, S-LEX against the model; random non-dictionary words are Names.',
-   note='Keyword clause is exhaustive execution, not proof. Theorems are about one scan step at the opener. Known finding KF-C14-1 (three non-word dictionary entries).',
-   technique='Lean 4 theorems from rule shapes (first-character analysis + closed forms of lazy/greedy stars) + exhaustive table enumeration + differential correspondence',
+   text='Theorems (all subject strings, positions, left contexts, bodies): block/line comments and hints, single-/double-quoted, backtick/acute, dollar-quoted regions are one token of their type at the opener, and lex_emits_region lifts this to the output of the whole scan at every scan boundary; word_rule_munch, keyword_case_invariant; dict_word: 790 of 809 dictionary entries are certified universally (any left context, any delimiter) to be the keyword-rule token, the 19 others are evaluated on a concrete context. Rule shapes are pinned to the regenerated table by definitional equations. Exhaustive enumeration of every dictionary word x casings x contexts on the real lexer with an independent first-dictionary oracle; S-LEX.',
+   note='Rule indexes are fixed in the proofs: inserting a rule in front breaks the obligations without a failing input (reported as such). Known finding KF-C14-1.',
+   technique='Lean 4 theorems from rule shapes (first-character analysis, closed forms of lazy/greedy stars, window over-approximation for dictionary words) + exhaustive table enumeration + differential correspondence',
    design='§7 C14'),
 }
 TITLES = {}
